@@ -7,7 +7,7 @@ import re
 
 import z3
 
-from .interp import Agg, EnumV, Ref, Opaque, FnItem, Outcome, Unencodable, UNIT, norm_type, last_segment, INT_TYPES
+from .interp import Agg, EnumV, Ref, Opaque, Abs, FnItem, Outcome, Unencodable, UNIT, norm_type, last_segment, INT_TYPES
 
 
 def ret(st, v):
@@ -274,3 +274,119 @@ def core_models(I, st, caller, func, args, argtys, dest_ty):
 
 
 ENUM_TABLE_EXTRA = {"ControlFlow": ["Continue", "Break"]}
+
+
+# ---------------------------------------------------------------------------------------------
+# higher-order std combinators: the closure bodies are taken from the dump
+def call_closure(I, st, caller, closure_ty, closure_val, cargs):
+    body = I.prog.find_closure(closure_ty)
+    if body is None:
+        raise Unencodable("closure body not found for %s" % closure_ty[:120])
+    first = body.params[0][1].strip()
+    if first.startswith("&"):
+        I.frame_counter += 1
+        fr = I.frame_counter
+        st.mem[(fr, 0)] = closure_val
+        cv = Ref(fr, 0, ())
+    else:
+        cv = closure_val
+    # closures take their arguments as separate MIR params
+    args = [cv] + list(cargs)
+    if len(body.params) != len(args):
+        raise Unencodable("closure arity %d vs %d for %s" % (len(body.params), len(args), body.name))
+    I.calls_seen.setdefault("closure " + closure_ty[:100], "mir:" + body.name)
+    return I.call_fn(body, args, st)
+
+
+def generic_args(f):
+    """turbofish args of the last segment: `Option::<T>::and_then::<U, {closure@..}>` -> ['U', '{closure@..}']"""
+    if not f.endswith(">"):
+        return []
+    from . import parser as P
+    depth = 0
+    for i in range(len(f) - 1, -1, -1):
+        if f[i] == ">" and not (i > 0 and f[i - 1] in "-="):
+            depth += 1
+        elif f[i] == "<":
+            depth -= 1
+            if depth == 0:
+                break
+    return [x.strip() for x in P.split_top(f[i + 1:-1], ", ")]
+
+
+def hof_models(I, st, caller, func, args, argtys, dest_ty):
+    f = strip_std_paths(func)
+    m = re.match(r"^(Option|Result)::<.*?>::(and_then|map|is_some_and|is_none_or|is_ok_and|map_err|ok_or|ok_or_else|unwrap_or_else|map_or|filter)::<", f)
+    if not m:
+        m2 = re.match(r"^(Option|Result)::<.*>::(ok_or)::<", f)
+        if not m2:
+            return None
+        m = m2
+    kind, op = m.group(1), m.group(2)
+    ga = generic_args(f)
+    v = deref_all(I, st, args[0])
+    good = 1 if kind == "Option" else 0
+    outs = []
+    clos_ty = next((g for g in ga if "closure@" in g), None)
+    for c, idx in split_enum(I, st, v, f):
+        s2 = st.fork()
+        s2.assume(c)
+        isgood = idx == good
+        payload = v.payloads.get(idx, (None,))
+        if op == "ok_or":
+            outs.append(Outcome("return", EnumV("Result", 0, {0: (payload[0],)}) if isgood else EnumV("Result", 1, {1: (args[1],)}), s2))
+            continue
+        if op in ("and_then", "map", "is_some_and", "is_ok_and", "filter") and not isgood:
+            if op in ("and_then", "map", "filter"):
+                outs.append(Outcome("return", v if kind == "Result" else EnumV("Option", 0, {}), s2))
+            else:
+                outs.append(Outcome("return", z3.BoolVal(False), s2))
+            continue
+        if op == "map_err" and isgood:
+            outs.append(Outcome("return", v, s2))
+            continue
+        if op == "map_err" and clos_ty is None:
+            # fn item as mapper (e.g. an enum constructor): opaque error
+            outs.append(Outcome("return", EnumV("Result", 1, {1: (Opaque("error"),)}), s2))
+            continue
+        if clos_ty is None:
+            raise Unencodable("higher-order call without closure type: " + f[:120])
+        for o in call_closure(I, s2, caller, clos_ty, args[1], [payload[0]]):
+            if o.kind != "return":
+                outs.append(o)
+                continue
+            r = o.value
+            if op == "and_then":
+                outs.append(Outcome("return", r, o.state))
+            elif op == "map":
+                outs.append(Outcome("return", EnumV(kind, idx, {idx: (r,)}), o.state))
+            elif op in ("is_some_and", "is_ok_and"):
+                outs.append(Outcome("return", r, o.state))
+            elif op == "map_err":
+                outs.append(Outcome("return", EnumV("Result", 1, {1: (r,)}), o.state))
+            else:
+                raise Unencodable(f)
+    return outs
+
+
+def abs_models(I, st, caller, func, args, argtys, dest_ty):
+    """equality on abstracted values; slog switched off; anyhow errors opaque"""
+    f = strip_std_paths(func)
+    m = re.match(r"^<(.*) as PartialEq(?:<.*>)?>::(eq|ne)$", f)
+    if m and len(args) == 2:
+        a = deref_all(I, st, args[0])
+        b = deref_all(I, st, args[1])
+        if isinstance(a, Abs) and isinstance(b, Abs):
+            if a.sort != b.sort:
+                raise Unencodable("comparison across sorts %s/%s" % (a.sort, b.sort))
+            r = a.term == b.term
+            return ret(st, r if m.group(2) == "eq" else z3.Not(r))
+    if re.match(r"^(slog::)?__slog_static_max_level$", f):
+        return ret(st, Opaque("slog::Level", 0))
+    if re.match(r"^(slog::)?FilterLevel::as_usize$", f):
+        return ret(st, z3.IntVal(0))  # logging disabled: static filter level Off
+    if re.match(r"^(slog::)?Level::as_usize$", f):
+        return ret(st, z3.IntVal(9))
+    if f.startswith("anyhow::") or re.match(r"^<.* as anyhow::", f) or "anyhow::kind::" in f or "anyhow::__private" in f:
+        return ret(st, Opaque("anyhow::Error"))
+    return None
